@@ -651,7 +651,7 @@ def real_cases(rng, n, fail_rate):
              "pre_dispatch": rng.choice(["all", "2*n_jobs", "n_jobs", 1, 3, "1.5*n_jobs"]),
              "return_as": rng.choice(["list", "list", "generator", "generator_unordered"]), "N": N,
              "tfail": [], "ifail": None, "reuse": 2, "seed": rng.randint(0, 10 ** 6), "with_block": rng.random() < 0.4,
-             "verbose": rng.choice([0, 0, 0, 1, 11, 60]), "exc": "TaskFail", "init": None, "sized": rng.random() < 0.5}
+             "verbose": rng.choice([0, 0, 0, 1, 11, 60]), "exc": "TaskFail", "init": None, "sized": rng.choice([False, False, True, True, "under", "over"])}
         if N and rng.random() < fail_rate:
             if rng.random() < 0.3:
                 c["ifail"] = rng.randint(0, N)
@@ -779,6 +779,10 @@ def fixed_real_cases():
                             pre_dispatch="2*n_jobs", reuse=1))
     # sized inputs (the number of tasks is known up front), the empty one included, with progress messages
     ncpu = os.cpu_count() or 1
+    for backend, nj in (("threading", 2), ("loky", 2), ("sequential", 1)):
+        for sized in ("under", "over"):
+            out.append(dict(base, backend=backend, n_jobs=nj, N=10, tfail=[], sized=sized, verbose=0,
+                            pre_dispatch="all" if backend == "loky" else "2*n_jobs"))
     for backend, nj in (("sequential", 1), ("threading", 1), ("threading", 2), ("loky", 2), ("threading", -ncpu - 1), ("multiprocessing", -ncpu - 3)):
         for N in (0, 1, 10):
             for verbose in (1, 60):
